@@ -353,29 +353,30 @@ theorem flush_root (M : J) (diffs : List Op) :
   | error e => rfl
   | ok v => simp [setAt]
 
-/-- the open root group swallows the remaining root decisions: the final diff is a permutation of all their entries -/
-theorem root_acc : ∀ (rs : List (Decision × Op)) (M : List (String × J)) (diffs : List Op),
-    (∀ o ∈ diffs, isPlainMap o = true) → (∀ p ∈ rs, isPlainMap p.2 = true) → (∀ p ∈ rs, Res p.1 [] [p.2]) →
-    ∃ diffs', diffs'.Perm (diffs ++ rs.map (·.2)) ∧
+/-- the open root group swallows the remaining root decisions (each resolving to some plain entries, possibly none):
+    the final diff is a permutation of all their entries -/
+theorem root_acc : ∀ (rs : List (Decision × List Op)) (M : List (String × J)) (diffs : List Op),
+    (∀ o ∈ diffs, isPlainMap o = true) → (∀ p ∈ rs, ∀ o ∈ p.2, isPlainMap o = true) → (∀ p ∈ rs, Res p.1 [] p.2) →
+    ∃ diffs', diffs'.Perm (diffs ++ rs.flatMap (·.2)) ∧
       applyLoop (rs.map (·.1)) (.obj M) (some ⟨[], diffs, false⟩) = patch (.obj M) diffs'
   | [], M, diffs, _, _, _ => ⟨diffs, by simp, by simp [applyLoop, flush_root]⟩
   | p :: rest, M, diffs, hd, he, hres => by
-      obtain ⟨d, e⟩ := p
-      have hall : ∀ o ∈ diffs ++ [e], isPlainMap o = true := by
+      obtain ⟨d, es⟩ := p
+      have hall : ∀ o ∈ diffs ++ es, isPlainMap o = true := by
         intro o ho
-        simp only [List.mem_append, List.mem_singleton] at ho
-        rcases ho with ho | rfl
+        simp only [List.mem_append] at ho
+        rcases ho with ho | ho
         · exact hd o ho
-        · exact he _ List.mem_cons_self
-      obtain ⟨d2, h2, p2⟩ := combinePatches_plain 63 (diffs ++ [e]) hall
+        · exact he _ List.mem_cons_self o ho
+      obtain ⟨d2, h2, p2⟩ := combinePatches_plain 63 (diffs ++ es) hall
       have hd2 : ∀ o ∈ d2, isPlainMap o = true := fun o ho => hall o (p2.subset ho)
       obtain ⟨d3, p3, h3⟩ := root_acc rest M d2 hd2 (fun o ho => he o (List.mem_cons_of_mem _ ho))
         (fun o ho => hres o (List.mem_cons_of_mem _ ho))
-      have hR : Res d [] [e] := hres _ List.mem_cons_self
+      have hR : Res d [] es := hres _ List.mem_cons_self
       refine ⟨d3, ?_, ?_⟩
       · refine p3.trans ?_
-        have : (d2 ++ rest.map (·.2)).Perm ((diffs ++ [e]) ++ rest.map (·.2)) := List.Perm.append_right _ p2
-        simpa [List.append_assoc] using this
+        have : (d2 ++ rest.flatMap (·.2)).Perm ((diffs ++ es) ++ rest.flatMap (·.2)) := List.Perm.append_right _ p2
+        simpa [List.append_assoc, List.flatMap_cons] using this
       · simp only [List.map_cons, applyLoop, hR.path, splitStringPath, bind, Except.bind, pure, Except.pure]
         simp only [BEq.rfl, if_true, Bool.false_eq_true, if_false, getAt]
         simp only [hR.res, List.isEmpty_nil, if_true, hR.nca, Bool.false_eq_true, if_false, h2]
@@ -555,8 +556,8 @@ theorem deep_loop (base : List (String × J)) : ∀ (items : List DeepItem) (tai
 /-- after the deep decisions: flush what is pending, then the root group (if any) — the result is `patch V diffs'`
     for the fully flushed root `V` and a permutation `diffs'` of the root entries -/
 theorem finish_root (base : List (String × J)) (M F : List (String × J)) (pend : Pend) (hinv : DeepInv base M F pend)
-    (rs : List (Decision × Op)) (hes : ∀ p ∈ rs, isPlainMap p.2 = true) (hres : ∀ p ∈ rs, Res p.1 [] [p.2]) :
-    ∃ V diffs', SK V ∧ (∀ x, lookupKV x V = (lookupKV x F).or (lookupKV x base)) ∧ diffs'.Perm (rs.map (·.2)) ∧
+    (rs : List (Decision × List Op)) (hes : ∀ p ∈ rs, ∀ o ∈ p.2, isPlainMap o = true) (hres : ∀ p ∈ rs, Res p.1 [] p.2) :
+    ∃ V diffs', SK V ∧ (∀ x, lookupKV x V = (lookupKV x F).or (lookupKV x base)) ∧ diffs'.Perm (rs.flatMap (·.2)) ∧
       applyLoop (rs.map (·.1)) (.obj M) (pend.map (·.1)) = patch (.obj V) diffs' := by
   obtain ⟨hsk, hlk, hpe⟩ := hinv
   -- the fully flushed root
@@ -577,8 +578,8 @@ theorem finish_root (base : List (String × J)) (M F : List (String × J)) (pend
       rw [this, sortKV_of_sorted M hsk]
     | cons p rest =>
       obtain ⟨d, e⟩ := p
-      have hR : Res d [] [e] := hres _ List.mem_cons_self
-      obtain ⟨d', p', h'⟩ := root_acc rest M [e] (fun o ho => by simp at ho; subst ho; exact hes _ List.mem_cons_self)
+      have hR : Res d [] e := hres _ List.mem_cons_self
+      obtain ⟨d', p', h'⟩ := root_acc rest M e (fun o ho => hes _ List.mem_cons_self o ho)
         (fun o ho => hes o (List.mem_cons_of_mem _ ho)) (fun o ho => hres o (List.mem_cons_of_mem _ ho))
       refine ⟨M, d', hsk, hV, by simpa using p', ?_⟩
       have hr := hR.res (.obj M)
@@ -614,8 +615,8 @@ theorem finish_root (base : List (String × J)) (M F : List (String × J)) (pend
       rw [this, sortKV_of_sorted _ hskV]
     | cons p rest =>
       obtain ⟨d, e⟩ := p
-      have hR : Res d [] [e] := hres _ List.mem_cons_self
-      obtain ⟨d', p', h'⟩ := root_acc rest (insertKV kp pvp M) [e] (fun o ho => by simp at ho; subst ho; exact hes _ List.mem_cons_self)
+      have hR : Res d [] e := hres _ List.mem_cons_self
+      obtain ⟨d', p', h'⟩ := root_acc rest (insertKV kp pvp M) e (fun o ho => hes _ List.mem_cons_self o ho)
         (fun o ho => hes o (List.mem_cons_of_mem _ ho)) (fun o ho => hres o (List.mem_cons_of_mem _ ho))
       refine ⟨insertKV kp pvp M, d', hskV, hV, by simpa using p', ?_⟩
       have hr := hR.res (.obj (insertKV kp pvp M))
@@ -655,20 +656,27 @@ theorem keyed_map_snd (l : List Op) : (keyed l).map (·.2) = l := by
   | nil => rfl
   | cons e rest ih => simp only [keyed, List.map_cons, List.map_map] at ih ⊢; rw [ih]
 
+theorem flatMap_pair_singleton {α β γ} (f : α → β) (g : α → γ) : ∀ (l : List α),
+    (l.map (fun d => (f d, [g d]))).flatMap (·.2) = l.map g
+  | [] => rfl
+  | x :: xs => by
+      simp only [List.map_cons, List.flatMap_cons, List.singleton_append]
+      rw [flatMap_pair_singleton f g xs]
+
 /-- **core**: `apply_decisions` on the one-sided decisions of a root object (deep decisions for the patched keys in
     any order, then the plain entries in any order) is `patch` with the whole diff -/
 theorem apply_onesided_core (base : List (String × J)) (hb : SK base) (items : List DeepItem)
-    (rs : List (Decision × Op)) (ld : List Op)
-    (hok : ∀ it ∈ items, it.ok base) (hrs : ∀ p ∈ rs, isPlainMap p.2 = true) (hres : ∀ p ∈ rs, Res p.1 [] [p.2])
-    (heff' : ∀ p ∈ rs, (mapEff base p.2).isSome = true)
-    (hperm' : ld.Perm (items.map DeepItem.entry ++ rs.map (·.2))) (hnd : (ld.map Op.skey).Nodup) :
+    (rs : List (Decision × List Op)) (ld : List Op)
+    (hok : ∀ it ∈ items, it.ok base) (hrs : ∀ p ∈ rs, ∀ o ∈ p.2, isPlainMap o = true) (hres : ∀ p ∈ rs, Res p.1 [] p.2)
+    (heff' : ∀ p ∈ rs, ∀ o ∈ p.2, (mapEff base o).isSome = true)
+    (hperm' : ld.Perm (items.map DeepItem.entry ++ rs.flatMap (·.2))) (hnd : (ld.map Op.skey).Nodup) :
     applyDecisions (.obj base) (items.map DeepItem.dec ++ rs.map (·.1)) = patch (.obj base) ld := by
-  generalize hesdef : rs.map (·.2) = es at hperm'
+  generalize hesdef : rs.flatMap (·.2) = es at hperm'
   have hperm : ld.Perm (items.map DeepItem.entry ++ es) := hperm'
   have hes : ∀ o ∈ es, isPlainMap o = true := by
-    intro o ho; rw [← hesdef] at ho; obtain ⟨p, hp, rfl⟩ := List.mem_map.mp ho; exact hrs p hp
+    intro o ho; rw [← hesdef] at ho; obtain ⟨p, hp, hop⟩ := List.mem_flatMap.mp ho; exact hrs p hp o hop
   have heff : ∀ o ∈ es, (mapEff base o).isSome = true := by
-    intro o ho; rw [← hesdef] at ho; obtain ⟨p, hp, rfl⟩ := List.mem_map.mp ho; exact heff' p hp
+    intro o ho; rw [← hesdef] at ho; obtain ⟨p, hp, hop⟩ := List.mem_flatMap.mp ho; exact heff' p hp o hop
   -- key bookkeeping
   have hnd2 : ((items.map DeepItem.entry ++ es).map Op.skey).Nodup := (hperm.map Op.skey).nodup_iff.mp hnd
   simp only [List.map_append, List.map_map] at hnd2
@@ -1194,29 +1202,31 @@ theorem apply_onesided_obj (E : Env) (base : List (String × J)) (ld : List Op) 
       simp only [Function.comp, (entry_of_plain hp).2.1]
       exact (entry_of_plain hp).2.2
   have hrs : (root.map toEntry).map (fun e => dLocal [] [e]) =
-      (root.map (fun d => (dLocal [] [toEntry d], toEntry d))).map (·.1) := by
+      (root.map (fun d => (dLocal [] [toEntry d], [toEntry d]))).map (·.1) := by
     simp [List.map_map, Function.comp]
-  have hrs2 : (root.map (fun d => (dLocal [] [toEntry d], toEntry d))).map (·.2) = root.map toEntry := by
-    simp [List.map_map, Function.comp]
+  have hrs2 : (root.map (fun d => (dLocal [] [toEntry d], [toEntry d]))).flatMap (·.2) = root.map toEntry := by
+    exact flatMap_pair_singleton _ _ root
   rw [hdec, hrs]
   rw [← hX]
-  apply apply_onesided_core base hb (deep.map (toItem base)) (root.map (fun d => (dLocal [] [toEntry d], toEntry d))) ld
+  apply apply_onesided_core base hb (deep.map (toItem base)) (root.map (fun d => (dLocal [] [toEntry d], [toEntry d]))) ld
   · intro it hit
     obtain ⟨d, hd, rfl⟩ := List.mem_map.mp hit
     obtain ⟨k, dd, he, rfl⟩ := hdeepm d hd
     exact (item_of_patch base hc.2 k dd (heffAll _ he)).2.1
-  · intro o ho
+  · intro o ho o' ho'
     obtain ⟨d, hd, rfl⟩ := List.mem_map.mp ho
     obtain ⟨e, he, hp, rfl⟩ := hrootm d hd
-    show isPlainMap (toEntry (mkLocal e)) = true
+    simp only [List.mem_singleton] at ho'
+    subst ho'
     rw [(entry_of_plain hp).2.1]; exact hp
   · intro o ho
     obtain ⟨d, hd, rfl⟩ := List.mem_map.mp ho
     exact dLocal_res _ _
-  · intro o ho
+  · intro o ho o' ho'
     obtain ⟨d, hd, rfl⟩ := List.mem_map.mp ho
     obtain ⟨e, he, hp, rfl⟩ := hrootm d hd
-    show (mapEff base (toEntry (mkLocal e))).isSome = true
+    simp only [List.mem_singleton] at ho'
+    subst ho'
     rw [(entry_of_plain hp).2.1]; exact heffAll e he
   · -- the entries are those of `ld`
     rw [hrs2]
